@@ -37,6 +37,7 @@ var sets = map[string]set{
 	// optional sets: vector-level helpers (a tree that reshapes them still gets the core domains, see ./check)
 	"dil_sample_vec": {pkgDir: "dilithium", hook: "dil_sample_vec.go.txt"},
 	"dil_arith_vec":  {pkgDir: "dilithium", hook: "dil_arith_vec.go.txt"},
+	"dil_sample_g1":  {pkgDir: "dilithium", hook: "dil_sample_g1.go.txt"},
 	"misc_codec":     {pkgDir: "misc", hook: "misc_codec.go.txt"},
 }
 
